@@ -512,3 +512,63 @@ fn c11_skip_half() {
 fn c11_skip_three_halves() {
     skip_case_h(3);
 }
+
+/// thorough variant of skip_case: streams of <= 5 items, 7 pulls
+fn skip_case_5(n: isize) {
+    let s = Src::any_exact(5);
+    let (given, len, items) = (s.given_handle(), s.len(), s.items());
+    let cv = (FakeVarsB { f: Some(FakeFB(s)), n: MV::Int(n) }, MV::Null);
+    let mut it = real_skip()(cv);
+    assert!(given.get() == 0);
+    let drop = if n <= 0 { 0 } else if (n as usize) < len { n as usize } else { len };
+    let mut pos = 0;
+    let mut k = 0;
+    while k < 7 {
+        let o = it.next();
+        while pos < drop && items[pos] < 0x80 {
+            pos += 1;
+        }
+        if pos < len {
+            assert!(same_item(&o, items[pos]));
+            pos += 1;
+            assert!(given.get() == pos);
+        } else {
+            assert!(o.is_none());
+            assert!(given.get() == len);
+        }
+        core::mem::forget(o);
+        k += 1;
+    }
+    kani::cover!(len == 5 && items[0] < 0x80);
+    kani::cover!(len == 5 && items[0] >= 0x80 && items[1] < 0x80);
+    kani::cover!(len == 0);
+    core::mem::forget(it);
+}
+
+//@ tier: thorough
+//@ inst: f = boxed counting source of <= 5 items (u8; values >= 0x80 are errors), V = MV
+//@ funcs: funs::skip! (run instance), funs::while_gtz!
+//@ bounds: $n = 2 (literal); every stream of 0..=5 items, each an output or an error; 7 pulls; unwind 8
+//@ assume: none
+//@ asserts: as c11_skip_2 on longer streams
+//@ timeout: 2400
+//@ mem_gb: 16
+#[kani::proof]
+#[kani::unwind(8)]
+fn c11_skip_2_of_5() {
+    skip_case_5(2);
+}
+
+//@ tier: thorough
+//@ inst: f = boxed counting source of <= 5 items (u8; values >= 0x80 are errors), V = MV
+//@ funcs: funs::skip! (run instance), funs::while_gtz!
+//@ bounds: $n = 4 (literal); every stream of 0..=5 items, each an output or an error; 7 pulls; unwind 8
+//@ assume: none
+//@ asserts: as c11_skip_4 on longer streams
+//@ timeout: 2400
+//@ mem_gb: 16
+#[kani::proof]
+#[kani::unwind(8)]
+fn c11_skip_4_of_5() {
+    skip_case_5(4);
+}
